@@ -55,8 +55,10 @@ TermPlain == Base \cup Depth1 \cup (IF Thorough THEN Depth2 ELSE
                  Lst(<<a, Lst(<<b>>)>>), LstT(<<Lst(<<X>>)>>, Y), Cx("g", <<X, X>>)})
 
 (* ---- function terms (C13) ---- *)
-FnArgs == {<<IntT(1), IntT(2)>>, <<IntT(7), IntT(2)>>, <<X, IntT(2)>>, <<Flt(3, -1), IntT(2)>>,
-           <<IntT(6), IntT(3), IntT(2)>>, <<IntT(5)>>}
+FnArgs == IF Thorough
+          THEN {<<IntT(1), IntT(2)>>, <<IntT(7), IntT(2)>>, <<X, IntT(2)>>, <<Flt(3, -1), IntT(2)>>,
+                <<IntT(6), IntT(3), IntT(2)>>, <<IntT(5)>>, <<IntT(-7), IntT(2)>>, <<Y, X>>}
+          ELSE {<<IntT(7), IntT(2)>>, <<X, IntT(2)>>, <<Flt(3, -1), IntT(2)>>}
 FnTerms == {Fn(op, args) : op \in {"add", "subtract", "multiply", "divide"}, args \in FnArgs}
       \cup {Fn("join", <<a, b>>), Fn("join", <<a, Atom(","), b>>), Fn("join", <<X, b>>),
             Fn("join", <<Lst(<<a, b>>), Atom("!")>>), Fn("join", <<IntT(1), a>>)}
@@ -214,6 +216,17 @@ MostGeneral == (LawsOn /\ u.status = "ok") =>
     \A th \in GroundUnifiers :
         \A i \in 1..NVars : EqMod(Resolve(Resolve(Var(i, ""), u.bind), th), th[i], th)
 
+(* Function terms are only claimed where their value is defined by the bindings  *)
+(* the unification starts from (then it is the same whenever it is evaluated).    *)
+RECURSIVE FnSubs(_), FnSubsSeq(_)
+FnSubs(t) == CASE t.k = "fn" -> {t}
+               [] t.k = "cx" -> FnSubsSeq(t.a)
+               [] t.k = "list" -> FnSubsSeq(t.a)
+               [] OTHER -> {}
+FnSubsSeq(s) == IF s = <<>> THEN {} ELSE FnSubs(Head(s)) \cup FnSubsSeq(Tail(s))
+FnDefined == \A i \in DOMAIN u.pairs : \A f \in FnSubs(u.pairs[i][1]) \cup FnSubs(u.pairs[i][2]) :
+                 EvalFn(f, u.prior).st = "ok"
+
 (* ------------------------------ emission -------------------------------- *)
 RECURSIVE PackPairs(_)
 PackPairs(ps) == IF ps = <<>> THEN <<>>
@@ -222,7 +235,7 @@ Case == [ t      |-> "unify",
           slice  |-> Slice,
           pairs  |-> PackPairs(u.pairs),
           prior  |-> PackSeq(u.prior),
-          status |-> u.status,
+          status |-> IF Claimed /\ ~FnDefined THEN "out" ELSE u.status,
           done   |-> u.done,
           res    |-> IF u.status = "ok" THEN PackSeq(Answer(NVars, u.bind))
                      ELSE PackSeq(Answer(NVars, u.commit)),
